@@ -367,3 +367,22 @@ func TestWriterFaults(t *testing.T) {
 		ev.Sample(c)
 	})
 }
+
+// TestHugeCall: one WriteMessages call with more messages than a 16-bit index can number (the Writer keeps per-message
+// indexes for the call's bookkeeping); every message is judged like in any other case.
+func TestHugeCall(t *testing.T) {
+	for _, async := range []bool{false, true} {
+		msgs := make([]wsim.Msg, 66000)
+		for i := range msgs {
+			msgs[i] = wsim.Msg{KeyLen: -1, ValueSize: 8}
+		}
+		c := wsim.Case{Brokers: 1, ProduceMax: 7, BatchSize: 6000, BatchBytes: 1 << 20, BatchTimeoutMs: 5, MaxAttempts: 2, BackoffMinMs: 1, BackoffMaxMs: 2, Acks: -1, Async: async,
+			Balancer: "roundrobin", WriterTopic: true, WriteTimeoutMs: 20000, CallTimeoutMs: 60000, Topics: []string{"ta"}, Partitions: []int{3},
+			Callers: [][]wsim.Call{{{Msgs: msgs}}}}
+		if async {
+			c.SettleMs = 3000
+		}
+		_, labels := check(t, c)
+		ev.Case(fmt.Sprintf("huge-call async=%v", async), true, append(labels, "huge_call")...)
+	}
+}
